@@ -79,6 +79,16 @@ def wallet_history(job):
         return {'seed': seed, 'kind': kind, 'events': [], 'desc': [], 'setup_error': repr(e)}
     single = scheme == 'single'
     net = w.network
+    # another wallet in the same database file, with a funded key: nothing of it may ever be spent by w
+    foreign = None
+    try:
+        wo = Wallet.create(name + '_other', network=network, witness_type=wt if scheme != 'multisig' else 'segwit', db_uri=db_uri)
+        fk = wo.get_key()
+        ftx = hashlib.sha256(b'foreign-%d' % seed).hexdigest()
+        wo.utxo_add(fk.address, 5000000, ftx, 0, confirmations=10)
+        foreign = (ftx, 0, fk.key_id, 5000000, fk.address)
+    except Exception as e:
+        return {'seed': seed, 'kind': kind, 'events': [], 'desc': [], 'setup_error': 'second wallet: %r' % e}
     table = {}
     events, desc = [], []
     reports = []        # outputs ever reported to the wallet: [txid, n, value, key_id, address]
@@ -184,15 +194,28 @@ def wallet_history(job):
                     tainted = True          # no fee bump / import of a transaction that is already wrong
                 elif mode < 0.40 and arr:
                     arr.append(arr[0])
+                elif mode < 0.52 and foreign:
+                    # the documented long form (txid, output_n, key_id, value[, signatures, unlocking_script, address]) naming an
+                    # output and a key of the OTHER wallet in this database
+                    arr.append(foreign)
+                    tainted = True
                 rng.shuffle(arr)
                 explicit.extend([[txnum(table, a[0]), a[1]] for a in arr])
                 q['minconf'] = minconf = 0
-                have = sum(a[2] for a in arr)
+                have = sum(a[3] if len(a) == 5 else a[2] for a in arr)
                 amount = rng.choice([600, 20000, max(1000, have // 2), max(1000, have - 3000), have + 5000])
                 recips = [(rng.choice(EXT), amount)]
                 if not arr:
                     raise WalletError('driver: nothing to list')
-                t = w.send(recips, input_arr=[(a[0], a[1]) for a in arr], fee=fee, broadcast=broadcast, number_of_change_outputs=nchange)
+                long_form = rng.random() < 0.4
+                def spec_in(a):
+                    if len(a) == 5:         # the foreign output: with or without its address
+                        return (a[0], a[1], a[2], a[3]) if rng.random() < 0.5 else (a[0], a[1], a[2], a[3], None, b'', a[4])
+                    if long_form:
+                        kid = next((x[3] for x in reports if x[0] == a[0] and x[1] == a[1]), None)
+                        return (a[0], a[1], kid, a[2]) if kid else (a[0], a[1])
+                    return (a[0], a[1])
+                t = w.send(recips, input_arr=[spec_in(a) for a in arr], fee=fee, broadcast=broadcast, number_of_change_outputs=nchange)
             elif kind_ == 'send':
                 n = rng.randrange(2, 4)
                 recips = []
@@ -336,13 +359,16 @@ def wallet_history(job):
         plan = ['key', 'add', 'add', 'spend_most', 'delete_funding', 'update_all', 'tx']
     elif sc < 0.70:
         plan = ['key', 'add_old', 'add_old', 'add_young', 'send_minconf', 'send_minconf']
+    elif sc < 0.80:
+        # one funding transaction with several outputs, all spent by one broadcast transaction; nothing is left to spend
+        plan = ['key', 'add', 'add_same', 'add_same', 'spend_most', 'tx', 'tx', 'tx']
     force = [None]
     for step in range(nops):
         r = rng.random()
         forced = plan[step] if step < len(plan) else None
         if forced == 'key':
             r = 0.0
-        elif forced in ('add', 'add_old', 'add_young'):
+        elif forced in ('add', 'add_old', 'add_young', 'add_same'):
             r = 0.2
         elif forced == 'update_all':
             r = 0.40
@@ -369,6 +395,10 @@ def wallet_history(job):
                     continue
                 v = rng.choice(VALUES)
                 conf = rng.choice([0, 1, 3, 10])
+                if force[0] == 'add_same' and reports:
+                    # several outputs of one funding transaction
+                    txid, n, conf = reports[0][0], max(x[1] for x in reports if x[0] == reports[0][0]) + 1, reports[0][5]
+                    v = rng.choice([150000, 1000000, 20000])
                 if force[0] == 'add_old':
                     txid, n, v, conf = newtxid(), 0, 150000, 10
                 elif force[0] == 'add_young':
